@@ -67,6 +67,7 @@ struct Cfg {
     int_consts: BTreeMap<String, i64>,
     unreachable: Option<String>,
     take_stmts: Option<usize>,
+    skip_stmts: usize,
     self_fields: Vec<String>,
     /// fuel of `iterFuel`: a number, or a Lean expression over the variables in scope where the loop starts
     loop_fuel: String,
@@ -1581,6 +1582,7 @@ fn main() {
             cfg.consts = consts.clone();
             cfg.unreachable = get_str(t, "unreachable");
             cfg.take_stmts = t.get("take_stmts").and_then(|x| x.as_u64()).map(|x| x as usize);
+            cfg.skip_stmts = t.get("skip_stmts").and_then(|x| x.as_u64()).map(|x| x as usize).unwrap_or(0);
             cfg.tail = get_str(t, "tail");
             cfg.self_fields = t.get("self_fields").and_then(|x| x.as_array()).map(|a| a.iter().filter_map(|x| x.as_str().map(|s| s.to_string())).collect()).unwrap_or_default();
             cfg.loop_fuel = match t.get("loop_fuel") {
@@ -1700,6 +1702,13 @@ fn main() {
                         writeln!(body, "{}", p).unwrap();
                     }
                     let mut body_stmts: Vec<Stmt> = body_stmts.into_iter().filter(|s| !stmt_is_verif_hook(s)).collect();
+                    if cfg.skip_stmts > 0 {
+                        // the first n statements are not translated: what they compute is a parameter of the target (see `params`, `subst`)
+                        if cfg.skip_stmts > body_stmts.len() {
+                            return Err(format!("skip_stmts {} exceeds the {} statements of the body", cfg.skip_stmts, body_stmts.len()));
+                        }
+                        body_stmts.drain(0..cfg.skip_stmts);
+                    }
                     if let Some(n) = cfg.take_stmts {
                         // only the first n statements are translated; the rest of the body is the opaque `tail` expression
                         body_stmts.truncate(n);
